@@ -4,6 +4,7 @@ package main
 
 import (
 	"bytes"
+	"math/rand"
 	"encoding/binary"
 	"fmt"
 	"net"
@@ -25,14 +26,17 @@ const secretSize = 7777
 // ---------------------------------------------------------------- world generator
 
 var namePool = []string{"a", "b", "c.txt", "d e", "GAMES", "PS3ISO", "ps3iso", "x.iso", "y.ISO", "data.bin", "é", "日本", "CLOSEFILE",
-	"r-o", "UP", "new", "k.dkey", "REDKEY", "A", "zz"}
+	"r-o", "UP", "new", "k.dkey", "REDKEY", "A", "zz", "DISCLOSEFILE", "save.CLOSEFILE"}
 
 func genName(env *Env, used map[string]bool) string {
 	for try := 0; try < 50; try++ {
 		var n string
 		switch env.Rnd.Intn(12) {
 		case 0:
-			n = strings.Repeat("L", 200+env.Rnd.Intn(56))
+			n = strings.Repeat("L", []int{200 + env.Rnd.Intn(56), 254, 255}[env.Rnd.Intn(3)])
+			if env.Rnd.Intn(6) == 0 {
+				n = strings.Repeat("日", 85) // 255 bytes of a three-byte character
+			}
 		case 1:
 			n = fmt.Sprintf("f%d", env.Rnd.Intn(1000))
 		default:
@@ -478,6 +482,9 @@ type sessResult struct {
 	goroutineEnded bool
 }
 
+// sessSplit, when set, cuts the wire bytes of request i into the pieces in which they reach the server (C05: chunkings).
+var sessSplit func(i int, wire []byte) [][]byte
+
 // runSession drives one connection of the real server over the tree at top.
 func runSession(top string, allow bool, chunks [][]byte, ops []int, bufSize int64, after func(i int, so stepObs, ls *LibServer)) (*sessResult, error) {
 	ls := NewLibServer(filepath.Join(top, "R"), allow, time.Unix(tmutUnix, 0), 0, bufSize)
@@ -491,7 +498,19 @@ func runSession(top string, allow bool, chunks [][]byte, ops []int, bufSize int6
 	c.Feed(nil)
 	res := &sessResult{}
 	for i, ch := range chunks {
-		out, closed := c.Feed(ch)
+		var out []byte
+		closed := false
+		if sessSplit != nil { // the request arrives in pieces, the server has consumed each before the next is sent
+			for _, piece := range sessSplit(i, ch) {
+				o, cl := c.Feed(piece)
+				out = append(out, o...)
+				if closed = cl; closed {
+					break
+				}
+			}
+		} else {
+			out, closed = c.Feed(ch)
+		}
 		op := 0
 		if i < len(ops) {
 			op = ops[i]
@@ -610,6 +629,12 @@ func checkStep(env *Env, id string, top string, allow bool, st *oracleState, q *
 	}
 	// ---- framing (C03)
 	if fl := fixedLen(q.Op); fl >= 0 {
+		if q.Op == opWriteFile && allow && len(out) >= 4 && len(q.Payload) == int(q.N) {
+			// (whatever else went wrong with the answer: a complete payload is stored completely or refused)
+			if code := int32(binary.BigEndian.Uint32(out)); code != -1 && code != int32(len(q.Payload)) {
+				fail("C05-upload", "WRITE_FILE of %d bytes answered %d (answer of %d bytes, closed=%v)", len(q.Payload), code, len(out), so.closed)
+			}
+		}
 		if len(out) != fl || so.closed {
 			fail("C03-shape", "expected a %d-byte answer and an open connection, got %d bytes closed=%v", fl, len(out), so.closed)
 			return
@@ -1089,7 +1114,40 @@ func runSess(env *Env) error {
 			ops = append(ops, q.Op)
 			stream = append(stream, wb...)
 		}
+		sessSplit = nil
 		switch i % 8 {
+		case 3: // every request reaches the server in 2..4 pieces (header / path / payload cut anywhere, incl. after the first byte)
+			seed := env.Rnd.Int63()
+			sessSplit = func(k int, wire []byte) [][]byte {
+				r := rand.New(rand.NewSource(seed + int64(k)))
+				if len(wire) < 2 {
+					return [][]byte{wire}
+				}
+				var cuts []int
+				for n := 1 + r.Intn(3); n > 0; n-- {
+					switch r.Intn(4) {
+					case 0:
+						cuts = append(cuts, 1)
+					case 1:
+						cuts = append(cuts, min(16, len(wire)-1)) // between the fixed part and what follows it
+					case 2:
+						cuts = append(cuts, min(17, len(wire)-1))
+					default:
+						cuts = append(cuts, 1+r.Intn(len(wire)-1))
+					}
+				}
+				sort.Ints(cuts)
+				var out [][]byte
+				prev := 0
+				for _, c := range cuts {
+					if c > prev {
+						out = append(out, wire[prev:c])
+						prev = c
+					}
+				}
+				return append(out, wire[prev:])
+			}
+			env.Count("variant", "requests in pieces")
 		case 5: // truncated stream: cut at a random point, sent as one blob
 			cut := env.Rnd.Intn(len(stream) + 1)
 			stream = stream[:cut]
@@ -1119,6 +1177,7 @@ func runSess(env *Env) error {
 			after = func(k int, so stepObs, ls *LibServer) { checkStep(env, id, top, allow, st, reqs[k], so) }
 		}
 		res, err := runSession(top, allow, chunks, ops, bufSize, after)
+		sessSplit = nil
 		if err != nil {
 			return err
 		}
